@@ -176,3 +176,96 @@ func vhC02StreamAcrossConns() {
 	vAssert("second-connection-dispatches-its-own-requests", len(got) == 2 && got[0] == "/b" && got[1] == "/after")
 	vAssert("second-connection-body-is-its-own", len(got) < 1 || bodies[nA] == payload)
 }
+
+// vhC02StreamedTail: StreamRequestBody, a body larger than the prefetch whose
+// tail arrives in the same read as a large pipelined request; behind the part
+// of that request the reader buffers, its body spells another request. With
+// or without Expect: 100-continue and ReduceMemoryUsage, the handler reading
+// the whole stream: /one and /two are dispatched (or the connection closes),
+// nothing else.
+func vhC02StreamedTail() {
+	s := &Server{NoDefaultDate: true, NoDefaultServerHeader: true, StreamRequestBody: true}
+	s.ReduceMemoryUsage = vBool("reduceMemory")
+	expect := vBool("expect100")
+	head := "POST /one HTTP/1.1\r\nHost: a\r\n"
+	if expect {
+		head += "Expect: 100-continue\r\n"
+	}
+	const bodyLen = 8192 + 100
+	head += "Content-Length: " + c07Digits(bodyLen) + "\r\n\r\n"
+	body := make([]byte, bodyLen)
+	for i := range body {
+		body[i] = 'x'
+	}
+	// request two: its body carries a request at the offset where a 4096-byte
+	// reader that was filled with the tail of body one plus the start of
+	// request two would resume
+	twoHead := "POST /two HTTP/1.1\r\nHost: a\r\nContent-Length: 6000\r\n\r\n"
+	two := make([]byte, 0, 6100)
+	two = append(two, twoHead...)
+	for len(two) < 4096-100 {
+		two = append(two, 'y')
+	}
+	two = append(two, c02Evil...)
+	for len(two) < len(twoHead)+6000 {
+		two = append(two, 'y')
+	}
+	third := "GET /three HTTP/1.1\r\nHost: a\r\nConnection: close\r\n\r\n"
+	c := &vsSegConn{}
+	c.segs = [][]byte{[]byte(head), body[:8192], append(append(append([]byte(nil), body[8192:]...), two...), third...)}
+	var uris []string
+	s.Handler = func(ctx *RequestCtx) {
+		uris = append(uris, string(ctx.Path()))
+		if bs := ctx.RequestBodyStream(); bs != nil {
+			var buf [512]byte
+			for {
+				if _, err := bs.Read(buf[:]); err != nil {
+					break
+				}
+			}
+		}
+		ctx.SetBodyString("ok")
+	}
+	s.ServeConn(c)
+	ok := true
+	want := [...]string{"/one", "/two", "/three"}
+	for i, u := range uris {
+		if i >= len(want) || u != want[i] {
+			ok = false
+		}
+	}
+	vAssert("only-the-real-requests-are-dispatched", ok && len(uris) >= 1)
+}
+
+// vhC02StreamedBadTrailer: a streamed chunked body whose trailer section is
+// malformed (its bytes spell a request); the handler reads the stream to its
+// error. Nothing after such a body is dispatched.
+func vhC02StreamedBadTrailer() {
+	s := &Server{NoDefaultDate: true, NoDefaultServerHeader: true, StreamRequestBody: true}
+	s.ReduceMemoryUsage = vBool("reduceMemory")
+	c := &vsSegConn{}
+	first := "POST /one HTTP/1.1\r\nHost: a\r\nTransfer-Encoding: chunked\r\n\r\n5\r\nhello\r\n0\r\n" + c02Evil
+	if vBool("oneSegment") {
+		c.segs = [][]byte{[]byte(first)}
+	} else {
+		c.segs = [][]byte{[]byte(first[:len(first)-len(c02Evil)]), []byte(c02Evil)}
+	}
+	var uris []string
+	s.Handler = func(ctx *RequestCtx) {
+		uris = append(uris, string(ctx.Path()))
+		if bs := ctx.RequestBodyStream(); bs != nil {
+			var buf [64]byte
+			for {
+				if _, err := bs.Read(buf[:]); err != nil {
+					break
+				}
+			}
+		}
+		ctx.SetBodyString("ok")
+	}
+	s.ServeConn(c)
+	vAssert("trailer-bytes-are-never-dispatched", len(uris) <= 1 && (len(uris) == 0 || uris[0] == "/one"))
+	rs, parsed := vsParseResponses(c.wrote)
+	fin := c02Final(rs)
+	vAssert("at-most-one-response-and-it-says-close", parsed && len(fin) <= 1 && (len(fin) == 0 || fin[0].close))
+}
